@@ -211,6 +211,11 @@ fn run_status_wait(case: &Case, out: &mut Out) {
     let tlog = Arc::new(Mutex::new(Vec::<Notif>::new()));
     let (op, status) = subject.clone().complete_status();
     let _ = op.actual_subscribe(ProbeT(tlog.clone()));
+    // the queries of the status, asked by THIS thread while the waiter is parked (source still running) and after the end
+    let watch = status.clone();
+    let ask = move || {
+      format!("{}{}{}", watch.is_completed() as u8, watch.error_occur() as u8, watch.is_closed() as u8)
+    };
     let (tx, rx) = mpsc::channel::<()>();
     let (ctx, crx) = mpsc::channel::<()>();
     std::thread::spawn(move || {
@@ -224,6 +229,7 @@ fn run_status_wait(case: &Case, out: &mut Out) {
     });
     let _ = crx.recv_timeout(Duration::from_millis(2000));
     std::thread::sleep(Duration::from_millis(40));
+    let pre = ask();
     match term {
       Notif::Error(e) => subject.clone().error(e),
       Notif::Next(v) => {
@@ -234,8 +240,8 @@ fn run_status_wait(case: &Case, out: &mut Out) {
       Notif::Complete => subject.clone().complete(),
     }
     match rx.recv_timeout(Duration::from_millis(2500)) {
-      Ok(()) => out.emit(k, "wait=returned".to_string()),
-      Err(_) => out.emit(k, "wait=HANG".to_string()),
+      Ok(()) => out.emit(k, format!("wait=returned q={}/{}", pre, ask())),
+      Err(_) => out.emit(k, format!("wait=HANG q={}/{}", pre, ask())),
     }
   }
 }
